@@ -491,6 +491,14 @@ def early_exits(ctx, fi, S, allowed_tests, what):
                        '%s: `%s` is returned when the acceptance test of the search already holds at that end of the bracket (`%s`)' % (fi.name, U(e), U(t)),
                        construct='early result `%s` when `%s`' % (U(e), U(t)))
                 continue
+        if not ok and t is not None and pol and U(e) in ('0', '0.0'):
+            # `.. and <a cruder bound> < <smallest positive double>`: the cruder bound has underflowed to exactly 0.  Whether the search would
+            # return exactly 0.0 there as well is a fact about floating-point evaluation this analysis does not decide
+            parts = t.values if isinstance(t, ast.BoolOp) and isinstance(t.op, ast.And) else [t]
+            tiny = ('sys.float_info.min*sys.float_info.epsilon', '5e-324', 'np.nextafter(0,1)', 'np.nextafter(0.0,1.0)', 'np.finfo(float).smallest_subnormal')
+            if any(isinstance(x, ast.Compare) and len(x.ops) == 1 and isinstance(x.ops[0], (ast.Lt, ast.LtE)) and T(x.comparators[0]) in tiny for x in parts):
+                raise AnalysisError('%s: early result 0.0 when another bound has underflowed to zero (`%s`): whether the search returns exactly 0.0 there '
+                                    'too is a floating-point fact outside this analysis' % (fi.name, U(t)[:90]))
         ctx.ob('early-exit', fi, fi.node, ok,
                '%s: a result not computed by the search must be one of the degenerate cases with an exact test (%s) and be 0; found `%s` when `%s%s`'
                % (fi.name, what, U(e), '' if pol else 'not ', U(t) if t is not None else 'always'),
